@@ -19,7 +19,8 @@
 //! for bit; the scripts of case i are.  A failing window is stored in full in the replay.
 use bytes::Bytes;
 use rand::Rng as _;
-use redis_sim::production::ShardedActorState;
+use redis_sim::io::TimeSource;
+use redis_sim::production::{ShardConfig, ShardedActorState};
 use redis_sim::redis::{Command, RespValue, SDS};
 use serde::{Deserialize, Serialize};
 use serde_json::{json, Value};
@@ -49,6 +50,22 @@ fn stamp() -> u64 {
     CLOCK.fetch_add(1, Ordering::SeqCst)
 }
 
+/// The node's time source: a counter only the harness moves, and only at instants when no
+/// request is in flight (between waves); there are no real sleeps behind deadlines.
+#[derive(Clone)]
+struct Clock(Arc<AtomicU64>);
+impl Clock {
+    fn new() -> Clock { Clock(Arc::new(AtomicU64::new(1_700_000_000_000))) }
+    fn advance(&self, ms: u64) { self.0.fetch_add(ms, Ordering::SeqCst); }
+}
+impl TimeSource for Clock {
+    fn now_millis(&self) -> u64 { self.0.load(Ordering::SeqCst) }
+}
+type Node = ShardedActorState<Clock>;
+fn node(n: usize, clock: &Clock) -> Node {
+    ShardedActorState::with_config_and_time_source(ShardConfig::with_shards(n), clock.clone())
+}
+
 type B = Vec<u8>;
 #[derive(Clone, Debug, PartialEq, Eq, Hash, Serialize, Deserialize)]
 enum State {
@@ -58,6 +75,17 @@ enum State {
     Set(Vec<B>),
     Hash(Vec<(B, B)>),
 }
+/// value, deadline (virtual ms), clock (virtual ms); a present key's deadline is > now
+#[derive(Clone, Debug, PartialEq, Eq, Hash, Serialize, Deserialize)]
+struct TState {
+    val: State,
+    dl: Option<u64>,
+    now: u64,
+}
+fn tstate0() -> TState { TState { val: State::None, dl: None, now: 0 } }
+#[derive(Clone, Copy, Debug, PartialEq, Eq, Hash, Serialize, Deserialize)]
+enum GetExOpt { Plain, Persist, Px(u64), Ex(u64) }
+type Flags = (bool, bool, bool, bool); // NX XX GT LT
 #[derive(Clone, Copy, Debug, PartialEq, Eq)]
 enum Kind {
     Str,
@@ -89,6 +117,17 @@ enum Prim {
     HSet(B, B),
     HDel(B),
     HGetAll,
+    // ---- commands that mention time
+    Advance(u64),      // the harness moves the clock to this virtual instant
+    SetPx(B, u64),     // SET k v PX ms
+    SetEx(B, u64),     // SET k v EX s
+    SetKeep(B),        // SET k v KEEPTTL
+    PExpire(u64, Flags),
+    Expire(u64, Flags),
+    Persist,
+    Ttl,
+    Pttl,
+    GetEx(GetExOpt),
 }
 #[derive(Clone, Debug, PartialEq, Eq, Serialize, Deserialize)]
 enum Rep {
@@ -102,7 +141,7 @@ enum Rep {
     Other(String),
 }
 fn is_read(p: &Prim) -> bool {
-    matches!(p, Prim::Get | Prim::Exists | Prim::LRange | Prim::SMembers | Prim::HGetAll)
+    matches!(p, Prim::Get | Prim::Exists | Prim::LRange | Prim::SMembers | Prim::HGetAll | Prim::Ttl | Prim::Pttl | Prim::GetEx(GetExOpt::Plain))
 }
 fn prim_name(p: &Prim) -> &'static str {
     match p {
@@ -113,6 +152,9 @@ fn prim_name(p: &Prim) -> &'static str {
         Prim::Exists => "EXISTS", Prim::LPush(_) => "LPUSH", Prim::RPush(_) => "RPUSH", Prim::LPop => "LPOP", Prim::RPop => "RPOP",
         Prim::LRange => "LRANGE", Prim::SAdd(_) => "SADD", Prim::SRem(_) => "SREM", Prim::SMembers => "SMEMBERS",
         Prim::HSet(..) => "HSET", Prim::HDel(_) => "HDEL", Prim::HGetAll => "HGETALL",
+        Prim::Advance(_) => "CLOCK", Prim::SetPx(..) => "SET-PX", Prim::SetEx(..) => "SET-EX", Prim::SetKeep(_) => "SET-KEEPTTL",
+        Prim::PExpire(..) => "PEXPIRE", Prim::Expire(..) => "EXPIRE", Prim::Persist => "PERSIST", Prim::Ttl => "TTL", Prim::Pttl => "PTTL",
+        Prim::GetEx(_) => "GETEX",
     }
 }
 fn prim_term(p: &Prim) -> String {
@@ -140,6 +182,19 @@ fn prim_term(p: &Prim) -> String {
         Prim::HSet(f, v) => format!("Hs {} {}", chex(f), chex(v)),
         Prim::HDel(f) => format!("Hd {}", chex(f)),
         Prim::HGetAll => "Ha".into(),
+        Prim::Advance(t) => format!("Ad {}%N", t),
+        Prim::SetPx(v, ms) => format!("Sx {} {}%N", chex(v), ms),
+        Prim::SetEx(v, s) => format!("Sx {} {}%N", chex(v), s * 1000),
+        Prim::SetKeep(v) => format!("Sk {}", chex(v)),
+        Prim::PExpire(ms, f) => format!("Xp {}%N {} {} {} {}", ms, cbool(f.0), cbool(f.1), cbool(f.2), cbool(f.3)),
+        Prim::Expire(sec, f) => format!("Xp {}%N {} {} {} {}", sec * 1000, cbool(f.0), cbool(f.1), cbool(f.2), cbool(f.3)),
+        Prim::Persist => "Pe".into(),
+        Prim::Ttl => "Tt".into(),
+        Prim::Pttl => "Pt".into(),
+        Prim::GetEx(GetExOpt::Plain) => "Ge None".into(),
+        Prim::GetEx(GetExOpt::Persist) => "Ge (Some None)".into(),
+        Prim::GetEx(GetExOpt::Px(ms)) => format!("Ge (Some (Some {}%N))", ms),
+        Prim::GetEx(GetExOpt::Ex(sec)) => format!("Ge (Some (Some {}%N))", sec * 1000),
     }
 }
 fn rep_term(r: &Rep) -> String {
@@ -204,11 +259,20 @@ fn shape_ok(p: &Prim, r: &Rep) -> bool {
         Prim::Del | Prim::Exists | Prim::SetNx(_) => matches!(r, Rep::Int(0) | Rep::Int(1)),
         Prim::SAdd(_) | Prim::SRem(_) | Prim::HSet(..) | Prim::HDel(_) => wt || matches!(r, Rep::Int(0) | Rep::Int(1)),
         Prim::LRange | Prim::SMembers | Prim::HGetAll => wt || matches!(r, Rep::Arr(_)),
+        Prim::Advance(_) | Prim::SetPx(..) | Prim::SetEx(..) | Prim::SetKeep(_) => matches!(r, Rep::Ok),
+        Prim::PExpire(..) | Prim::Expire(..) | Prim::Persist => matches!(r, Rep::Int(0) | Rep::Int(1)),
+        Prim::Ttl | Prim::Pttl => matches!(r, Rep::Int(n) if *n >= -2),
+        Prim::GetEx(_) => wt || matches!(r, Rep::Val(_)),
     }
 }
 
 // ---- the reference per-key machine, written independently of the Coq one -------------------
+/// Redis string2ll: optional '-', a digit 1-9, digits; "0" is the only zero; must fit i64.
 fn parse_i64(b: &[u8]) -> Option<i64> {
+    let d = b.strip_prefix(b"-").unwrap_or(b);
+    if !(b == b"0" || (matches!(d.first(), Some(b'1'..=b'9')) && d.iter().all(|c| c.is_ascii_digit()))) {
+        return None;
+    }
     std::str::from_utf8(b).ok()?.parse::<i64>().ok()
 }
 fn nonempty_list(l: Vec<B>) -> State { if l.is_empty() { State::None } else { State::List(l) } }
@@ -299,6 +363,67 @@ fn apply(st: &State, p: &Prim) -> (State, Rep) {
             S::Hash(l) => { let mut n = l.clone(); n.sort(); (st.clone(), Rep::Arr(n.into_iter().flat_map(|(f, v)| [f, v]).collect())) }
             _ => wt(),
         },
+        _ => unreachable!("timed commands are handled by apply_t"),
+    }
+}
+
+/// The machine with deadlines: Redis semantics as the executor documents them.  Plain SET (every
+/// write path), SETNX and SET NX/XX/GET when they write clear the deadline; SET KEEPTTL, GETSET,
+/// APPEND, INCRBY, SETRANGE keep it; a key that stops existing loses it; expiry is `deadline <= now`.
+fn apply_t(ts: &TState, p: &Prim) -> (TState, Rep) {
+    let present = !matches!(ts.val, State::None);
+    let same = |r: Rep| (ts.clone(), r);
+    let with = |val: State, dl: Option<u64>, r: Rep| (TState { val, dl, now: ts.now }, r);
+    let expire = |ms: u64, f: &Flags| -> (TState, Rep) {
+        if !present { return same(Rep::Int(0)); }
+        let new = ts.now + ms;
+        if f.0 && ts.dl.is_some() { return same(Rep::Int(0)); }
+        if f.1 && ts.dl.is_none() { return same(Rep::Int(0)); }
+        if f.2 && ts.dl.map(|d| new <= d).unwrap_or(true) { return same(Rep::Int(0)); }
+        if f.3 && ts.dl.map(|d| new >= d).unwrap_or(false) { return same(Rep::Int(0)); }
+        if new <= ts.now { return with(State::None, None, Rep::Int(1)); }
+        with(ts.val.clone(), Some(new), Rep::Int(1))
+    };
+    match p {
+        Prim::Advance(t) => {
+            if ts.dl.map(|d| d <= *t).unwrap_or(false) { (TState { val: State::None, dl: None, now: *t }, Rep::Ok) }
+            else { (TState { val: ts.val.clone(), dl: ts.dl, now: *t }, Rep::Ok) }
+        }
+        Prim::SetPx(v, ms) => with(State::Str(v.clone()), Some(ts.now + ms), Rep::Ok),
+        Prim::SetEx(v, s) => with(State::Str(v.clone()), Some(ts.now + s * 1000), Rep::Ok),
+        Prim::SetKeep(v) => with(State::Str(v.clone()), if present { ts.dl } else { None }, Rep::Ok),
+        Prim::PExpire(ms, f) => expire(*ms, f),
+        Prim::Expire(s, f) => expire(*s * 1000, f),
+        Prim::Persist => if present && ts.dl.is_some() { with(ts.val.clone(), None, Rep::Int(1)) } else { same(Rep::Int(0)) },
+        Prim::Ttl => same(Rep::Int(if !present { -2 } else { match ts.dl { None => -1, Some(d) => { let r = (d - ts.now) as i64; r / 1000 + (r % 1000 + 500) / 1000 } } })),
+        Prim::Pttl => same(Rep::Int(if !present { -2 } else { match ts.dl { None => -1, Some(d) => (d - ts.now) as i64 } })),
+        Prim::GetEx(o) => match &ts.val {
+            State::None => same(Rep::Val(None)),
+            State::Str(b) => {
+                let r = Rep::Val(Some(b.clone()));
+                match o {
+                    GetExOpt::Plain => same(r),
+                    GetExOpt::Persist => with(ts.val.clone(), None, r),
+                    GetExOpt::Px(ms) => with(ts.val.clone(), Some(ts.now + ms), r),
+                    GetExOpt::Ex(s) => with(ts.val.clone(), Some(ts.now + s * 1000), r),
+                }
+            }
+            _ => same(Rep::WrongType),
+        },
+        _ => {
+            let (val, r) = apply(&ts.val, p);
+            let clears = match p {
+                Prim::Set(_) => true,
+                Prim::SetNx(_) => !present,
+                Prim::SetOpt(_, nx, xx, get) => {
+                    let wrong = present && !matches!(ts.val, State::Str(_));
+                    !((*get && wrong) || (*nx && present) || (*xx && !present))
+                }
+                _ => false,
+            };
+            let dl = if matches!(val, State::None) || clears { None } else { ts.dl };
+            (TState { val, dl, now: ts.now }, r)
+        }
     }
 }
 
@@ -319,7 +444,7 @@ struct OpRec {
 struct Window {
     key: String,
     round: usize,
-    init: State,
+    init: TState,
     ops: Vec<OpRec>,
 }
 fn window_shapes_ok(w: &Window) -> bool {
@@ -340,7 +465,7 @@ fn linearize(w: &Window) -> Option<Vec<(usize, Vec<Rep>)>> {
             cm |= 1 << i;
         }
     }
-    fn go(w: &Window, cm: u64, done: u64, st: &State, seen: &mut HashSet<(u64, State)>, order: &mut Vec<(usize, Vec<Rep>)>) -> bool {
+    fn go(w: &Window, cm: u64, done: u64, st: &TState, seen: &mut HashSet<(u64, TState)>, order: &mut Vec<(usize, Vec<Rep>)>) -> bool {
         let n = w.ops.len();
         if done & cm == cm {
             return true;
@@ -362,7 +487,7 @@ fn linearize(w: &Window) -> Option<Vec<(usize, Vec<Rep>)>> {
             let mut got = Vec::new();
             if ok {
                 for (k, p) in o.prims.iter().enumerate() {
-                    let (nx, rr) = apply(&cur, p);
+                    let (nx, rr) = apply_t(&cur, p);
                     if !o.pending && rr != o.reps[k] {
                         ok = false;
                         break;
@@ -410,7 +535,7 @@ fn window_term(w: &Window, verdict: bool) -> String {
         }
         None => w.ops.iter().filter(|o| !o.pending).map(|o| one(o, o.ret, &o.reps)).collect(),
     };
-    format!("W2 {} [{}] {}", state_term(&w.init), items.join("; "), cbool(verdict))
+    format!("W2 {} {} {}%N [{}] {}", state_term(&w.init.val), copt(&w.init.dl, |d| format!("{}%N", d)), w.init.now, items.join("; "), cbool(verdict))
 }
 fn show(b: &[u8]) -> String {
     String::from_utf8_lossy(b).into_owned()
@@ -548,6 +673,46 @@ fn gen_step(rng: &mut Rng, mode: Mode, kinds: &[Kind], client: usize, serial: &m
     s
 }
 
+const TTL_VALUES: [&[u8]; 3] = [b"va", b"vb", b"7"];
+/// One command of a 'ttl' case: deadlines, plain writes of few distinct values through every
+/// write path (so that a write often stores the value the key already holds), reads through
+/// every read path.
+fn gen_ttl_step(rng: &mut Rng, mode: Mode, nkeys: usize) -> Step {
+    let k = rng.gen_range(0..nkeys);
+    let v = TTL_VALUES[rng.gen_range(0..TTL_VALUES.len())].to_vec();
+    let fastok = mode == Mode::Mixed;
+    let path = |rng: &mut Rng| if !fastok { Via::Generic } else { match rng.gen_range(0..4) { 0 => Via::Generic, 1 => Via::Fast, 2 => Via::Pooled, _ => Via::Batch } };
+    let ms = [50u64, 100, 150, 1000][rng.gen_range(0..4)];
+    let flags = |rng: &mut Rng| -> Flags { if rng.gen_bool(0.7) { (false, false, false, false) } else { match rng.gen_range(0..4) { 0 => (true, false, false, false), 1 => (false, true, false, false), 2 => (false, false, true, false), _ => (false, false, false, true) } } };
+    let g = |p: Prim| step(Via::Generic, vec![(k, p)]);
+    match rng.gen_range(0..100) {
+        0..=14 => g(Prim::SetPx(v, ms)),
+        15..=19 => g(Prim::SetEx(v, rng.gen_range(1..=2))),
+        20..=39 => {
+            let via = path(rng);
+            if via == Via::Batch && rng.gen_bool(0.5) {
+                let k2 = rng.gen_range(0..nkeys);
+                step(via, vec![(k, Prim::Set(v)), (k2, Prim::Set(TTL_VALUES[rng.gen_range(0..TTL_VALUES.len())].to_vec()))])
+            } else { step(via, vec![(k, Prim::Set(v))]) }
+        }
+        40..=44 => g(Prim::SetKeep(v)),
+        45..=49 => g(Prim::Persist),
+        50..=57 => { let f = flags(rng); g(Prim::PExpire(ms, f)) }
+        58..=61 => { let f = flags(rng); g(Prim::Expire(rng.gen_range(1..=2), f)) }
+        62..=67 => g(Prim::Ttl),
+        68..=73 => g(Prim::Pttl),
+        74..=79 => g(Prim::GetEx(match rng.gen_range(0..4) { 0 => GetExOpt::Plain, 1 => GetExOpt::Persist, 2 => GetExOpt::Px(100), _ => GetExOpt::Ex(1) })),
+        80..=91 => { let via = path(rng); step(via, vec![(k, Prim::Get)]) }
+        92..=93 => g(Prim::IncrBy(1)),
+        94 => g(Prim::Append(b"+".to_vec())),
+        95 => g(Prim::GetSet(v)),
+        96 => g(Prim::SetNx(v)),
+        97 => g(Prim::Del),
+        98 => g(Prim::Exists),
+        _ => g(Prim::GetDel),
+    }
+}
+
 /// The same conditional write for every client (own value), for first-writer races on key 0.
 fn race_prim(rng: &mut Rng, kind: Kind, which: u32, client: usize, serial: &mut u64) -> Prim {
     match kind {
@@ -593,6 +758,16 @@ fn cmd_of(key: &str, p: &Prim) -> Command {
         Prim::HSet(f, v) => Command::HSet(k, vec![(s(f), s(v))]),
         Prim::HDel(f) => Command::HDel(k, vec![s(f)]),
         Prim::HGetAll => Command::HGetAll(k),
+        Prim::SetPx(v, ms) => Command::Set { key: k, value: s(v), ex: None, px: Some(*ms as i64), exat: None, pxat: None, nx: false, xx: false, get: false, keepttl: false },
+        Prim::SetEx(v, sec) => Command::Set { key: k, value: s(v), ex: Some(*sec as i64), px: None, exat: None, pxat: None, nx: false, xx: false, get: false, keepttl: false },
+        Prim::SetKeep(v) => Command::Set { key: k, value: s(v), ex: None, px: None, exat: None, pxat: None, nx: false, xx: false, get: false, keepttl: true },
+        Prim::PExpire(ms, f) => Command::PExpire { key: k, milliseconds: *ms as i64, nx: f.0, xx: f.1, gt: f.2, lt: f.3 },
+        Prim::Expire(sec, f) => Command::Expire { key: k, seconds: *sec as i64, nx: f.0, xx: f.1, gt: f.2, lt: f.3 },
+        Prim::Persist => Command::Persist(k),
+        Prim::Ttl => Command::Ttl(k),
+        Prim::Pttl => Command::Pttl(k),
+        Prim::GetEx(o) => Command::GetEx { key: k, ex: if let GetExOpt::Ex(x) = o { Some(*x as i64) } else { None }, px: if let GetExOpt::Px(x) = o { Some(*x as i64) } else { None }, exat: None, pxat: None, persist: *o == GetExOpt::Persist },
+        Prim::Advance(_) => unreachable!("the clock is moved by the harness, not by a command"),
     }
 }
 
@@ -604,7 +779,7 @@ struct Done {
     per_key: BTreeMap<usize, (Vec<Prim>, Vec<Rep>)>,
 }
 
-async fn run_step(state: &ShardedActorState, keys: &[String], st: &Step) -> Done {
+async fn run_step(state: &Node, keys: &[String], st: &Step) -> Done {
     if st.delay_ms > 0 {
         tokio::time::sleep(std::time::Duration::from_millis(st.delay_ms)).await;
     }
@@ -728,7 +903,7 @@ async fn poll_once<F: std::future::Future>(fut: F) -> Option<F::Output> {
 }
 
 /// Start the request, abandon it; `Some` if it completed before it could be abandoned.
-async fn abandon(state: &ShardedActorState, keys: &Arc<Vec<String>>, sab: &SabStep) -> Option<Done> {
+async fn abandon(state: &Node, keys: &Arc<Vec<String>>, sab: &SabStep) -> Option<Done> {
     match sab.how {
         0 => poll_once(run_step(state, keys, &sab.step)).await,
         1 => tokio::time::timeout(std::time::Duration::ZERO, run_step(state, keys, &sab.step)).await.ok(),
@@ -742,6 +917,13 @@ async fn abandon(state: &ShardedActorState, keys: &Arc<Vec<String>>, sab: &SabSt
             h.await.ok()
         }
     }
+}
+
+/// 'ttl' cases: by how many virtual ms the clock moves before each wave and before the barrier reads
+#[derive(Clone, Debug)]
+struct TtlPlan {
+    before_wave: Vec<Vec<u64>>, // [round][wave]
+    before_reads: Vec<u64>,     // [round]
 }
 
 struct CaseRun {
@@ -770,7 +952,7 @@ fn state_of_read(kind: Kind, r: &Rep) -> State {
 
 fn run_case(rt: &tokio::runtime::Runtime, nshards: usize, keys: &[String], kinds: &[Kind], mode: Mode,
             scripts: &[Vec<Vec<Step>>], rounds: usize, wave: bool,
-            sabs: &[Vec<Vec<SabStep>>], padding: usize) -> CaseRun {
+            sabs: &[Vec<Vec<SabStep>>], padding: usize, ttl: Option<&TtlPlan>) -> CaseRun {
     let nk = keys.len();
     // indices nk and nk+1: the junk key and the padding key (no windows)
     let mut allkeys = keys.to_vec();
@@ -780,15 +962,18 @@ fn run_case(rt: &tokio::runtime::Runtime, nshards: usize, keys: &[String], kinds
     let kinds: Vec<Kind> = kinds.to_vec();
     let scripts: Arc<Vec<Vec<Vec<Step>>>> = Arc::new(scripts.to_vec());
     let sabs: Arc<Vec<Vec<Vec<SabStep>>>> = Arc::new(sabs.to_vec());
+    let ttl: Option<Arc<TtlPlan>> = ttl.map(|t| Arc::new(t.clone()));
     rt.block_on(async move {
-        let state = ShardedActorState::with_shards(nshards);
+        let clock = Clock::new();
+        let state = node(nshards, &clock);
+        let vnow = Arc::new(AtomicU64::new(0)); // the node's virtual time (ms since it was created)
         let nclients = scripts.len();
         let mut windows: Vec<Window> = Vec::new();
-        let mut init: Vec<State> = vec![State::None; nk];
+        let mut init: Vec<TState> = vec![tstate0(); nk];
         let mut panicked = None;
         let (mut abandoned, mut abandoned_pooled, mut completed_before_abandon, mut padding_ops) = (0usize, 0usize, 0usize, 0usize);
         let mut longest_ms = 0u64;
-        let mut pad_value = State::None;
+        let mut pad_value = tstate0();
         let mut pad_serial = 0u64;
         for round in 0..rounds {
             let barrier = Arc::new(tokio::sync::Barrier::new(nclients));
@@ -798,20 +983,35 @@ fn run_case(rt: &tokio::runtime::Runtime, nshards: usize, keys: &[String], kinds
                 let keys = keys.clone();
                 let scripts = scripts.clone();
                 let barrier = barrier.clone();
+                let (ttl, clock, vnow) = (ttl.clone(), clock.clone(), vnow.clone());
                 handles.push(tokio::spawn(async move {
                     barrier.wait().await;
                     let mut out = Vec::new();
                     let mut longest = 0u64;
-                    for st in scripts[c][round].iter() {
+                    let mut advances: Vec<(u64, u64, u64)> = Vec::new();
+                    for (j, st) in scripts[c][round].iter().enumerate() {
                         if wave {
                             // release the j-th command of every client at the same moment
                             barrier.wait().await;
+                            if let Some(plan) = &ttl {
+                                // everybody has its previous reply: nothing is in flight.  Client 0
+                                // moves the clock, then a second barrier releases the wave.
+                                let d = plan.before_wave[round].get(j).cloned().unwrap_or(0);
+                                if c == 0 && d > 0 {
+                                    let inv = stamp();
+                                    clock.advance(d);
+                                    let t = vnow.fetch_add(d, Ordering::SeqCst) + d;
+                                    let ret = stamp();
+                                    advances.push((inv, ret, t));
+                                }
+                                barrier.wait().await;
+                            }
                         }
                         let t0 = std::time::Instant::now();
                         out.push(run_step(&state, &keys, st).await);
                         longest = longest.max((t0.elapsed().as_millis() as u64).saturating_sub(st.delay_ms));
                     }
-                    (out, longest)
+                    (out, longest, advances)
                 }));
             }
             // saboteurs: start requests on the shared keys and abandon them mid-flight
@@ -850,9 +1050,10 @@ fn run_case(rt: &tokio::runtime::Runtime, nshards: usize, keys: &[String], kinds
                 }));
             }
             let mut done: Vec<Done> = Vec::new();
+            let mut advances: Vec<(u64, u64, u64)> = Vec::new();
             for h in handles {
                 match h.await {
-                    Ok((v, l)) => { done.extend(v); longest_ms = longest_ms.max(l); }
+                    Ok((v, l, a)) => { done.extend(v); longest_ms = longest_ms.max(l); advances.extend(a); }
                     Err(e) => panicked = Some(format!("client task failed: {:?}", e)),
                 }
             }
@@ -873,7 +1074,7 @@ fn run_case(rt: &tokio::runtime::Runtime, nshards: usize, keys: &[String], kinds
             for d in done.iter() {
                 if let Some((ps, rs)) = d.per_key.get(&nk) {
                     if !ps.iter().zip(rs.iter()).all(|(p, r)| shape_ok(p, r)) {
-                        windows.push(Window { key: JUNK_KEY.to_string(), round, init: State::None,
+                        windows.push(Window { key: JUNK_KEY.to_string(), round, init: tstate0(),
                             ops: vec![OpRec { id: 0, inv: 0, ret: 1, prims: ps.clone(), reps: rs.clone(), pending: false, via: d.via.clone() }] });
                     }
                 }
@@ -895,7 +1096,7 @@ fn run_case(rt: &tokio::runtime::Runtime, nshards: usize, keys: &[String], kinds
                     rep = canon(&prim, &r);
                 }
                 padding_ops += 1;
-                let (nx, want) = apply(&pad_value, &prim);
+                let (nx, want) = apply_t(&pad_value, &prim);
                 if rep != want {
                     windows.push(Window { key: PAD_KEY.to_string(), round, init: pad_value.clone(),
                         ops: vec![OpRec { id: 0, inv: 0, ret: 1, prims: vec![prim.clone()], reps: vec![rep], pending: false,
@@ -904,6 +1105,17 @@ fn run_case(rt: &tokio::runtime::Runtime, nshards: usize, keys: &[String], kinds
                 pad_value = nx;
             }
             // barrier reads: the whole value of every key, through the path class of this case
+            if let Some(plan) = &ttl {
+                let d = plan.before_reads[round];
+                if d > 0 {
+                    let inv = stamp();
+                    clock.advance(d);
+                    let t = vnow.fetch_add(d, Ordering::SeqCst) + d;
+                    advances.push((inv, stamp(), t));
+                }
+            }
+            let now_at_reads = vnow.load(Ordering::SeqCst);
+            let mut pttls: Vec<Option<(u64, u64, Rep)>> = Vec::new();
             let mut finals: Vec<(u64, u64, Prim, Rep)> = Vec::new();
             for k in 0..nk {
                 let p = read_prim(kinds[k]);
@@ -916,6 +1128,12 @@ fn run_case(rt: &tokio::runtime::Runtime, nshards: usize, keys: &[String], kinds
                 let ret = stamp();
                 let rep = canon(&p, &r);
                 finals.push((inv, ret, p, rep));
+                // with deadlines in play the remaining time is part of the key's state
+                pttls.push(if ttl.is_some() {
+                    let inv = stamp();
+                    let r = state.execute(&cmd_of(&keys[k], &Prim::Pttl)).await;
+                    Some((inv, stamp(), canon(&Prim::Pttl, &r)))
+                } else { None });
             }
             for k in 0..nk {
                 let mut ops: Vec<OpRec> = Vec::new();
@@ -935,10 +1153,18 @@ fn run_case(rt: &tokio::runtime::Runtime, nshards: usize, keys: &[String], kinds
                                          via: format!("ABANDONED {:?} (how {})", sab.step.via, sab.how) });
                     }
                 }
+                for (inv, ret, t) in advances.iter() {
+                    ops.push(OpRec { id: 0, inv: *inv, ret: *ret, prims: vec![Prim::Advance(*t)], reps: vec![Rep::Ok], pending: false, via: "harness moves the clock".into() });
+                }
                 ops.sort_by_key(|o| o.inv);
                 let (inv, ret, p, rep) = finals[k].clone();
                 ops.push(OpRec { id: 0, inv, ret, prims: vec![p.clone()], reps: vec![rep.clone()], pending: false,
                                  via: if mode == Mode::FastOnly { "barrier fast_get".into() } else { format!("barrier execute({})", prim_name(&p)) } });
+                let mut dl_next = None;
+                if let Some((inv, ret, r)) = &pttls[k] {
+                    ops.push(OpRec { id: 0, inv: *inv, ret: *ret, prims: vec![Prim::Pttl], reps: vec![r.clone()], pending: false, via: "barrier execute(PTTL)".into() });
+                    if let Rep::Int(n) = r { if *n >= 0 { dl_next = Some(now_at_reads + *n as u64); } }
+                }
                 // stamps -> ranks inside the window
                 let mut all: Vec<u64> = ops.iter().flat_map(|o| if o.pending { vec![o.inv] } else { vec![o.inv, o.ret] }).collect();
                 all.sort();
@@ -951,7 +1177,7 @@ fn run_case(rt: &tokio::runtime::Runtime, nshards: usize, keys: &[String], kinds
                     }
                 }
                 windows.push(Window { key: keys[k].clone(), round, init: init[k].clone(), ops });
-                init[k] = state_of_read(kinds[k], &rep);
+                init[k] = TState { val: state_of_read(kinds[k], &rep), dl: dl_next, now: now_at_reads };
             }
         }
         CaseRun { windows, panicked, abandoned, abandoned_pooled, completed_before_abandon, padding_ops, longest_ms }
@@ -1011,6 +1237,7 @@ struct Cfg {
     wide: bool,
     sab_pct: u64,
     race_pct: u64,
+    ttl_pct: u64,
     slow_every: u64,
     slow_long: bool,
     iters_per_sec: f64,
@@ -1051,8 +1278,13 @@ fn do_case(seed: u64, i: u64, cfg: &Cfg, rt: &tokio::runtime::Runtime, rt1: &tok
         match rng.gen_range(0..10) { 0 => Mode::GenericOnly, 1 => Mode::FastOnly, _ => Mode::Mixed }
     } else if rng.gen_bool(0.5) { Mode::GenericOnly } else { Mode::FastOnly };
     let race = !slow && rng.gen_range(0..100) < cfg.race_pct;
+    // 'ttl' class: deadlines on string keys; the clock moves only between waves
+    let ttl = !slow && !race && rng.gen_range(0..100) < cfg.ttl_pct;
     if (race || slow) && mode == Mode::FastOnly {
         mode = Mode::GenericOnly;
+    }
+    if ttl {
+        mode = if nshards == 1 || cfg.mixed_multishard { Mode::Mixed } else { Mode::GenericOnly };
     }
     let mut pool: Vec<&str> = KEYPOOL.to_vec();
     let mut keys: Vec<String> = Vec::new();
@@ -1060,7 +1292,7 @@ fn do_case(seed: u64, i: u64, cfg: &Cfg, rt: &tokio::runtime::Runtime, rt1: &tok
     for _ in 0..nkeys {
         let j = rng.gen_range(0..pool.len());
         keys.push(pool.remove(j).to_string());
-        kinds.push(if mode == Mode::FastOnly { Kind::Str } else { pick_kind(&mut rng) });
+        kinds.push(if mode == Mode::FastOnly || ttl { Kind::Str } else { pick_kind(&mut rng) });
     }
     if slow {
         kinds[0] = if rng.gen_bool(0.75) { Kind::Str } else { Kind::List };
@@ -1071,6 +1303,8 @@ fn do_case(seed: u64, i: u64, cfg: &Cfg, rt: &tokio::runtime::Runtime, rt1: &tok
     let single_worker = rng.gen_bool(if race { 0.4 } else { 0.2 }) && !slow;
     let mut scripts: Vec<Vec<Vec<Step>>>;
     let mut slow_secs = 0.0f64;
+    let mut ttl_plan: Option<TtlPlan> = None;
+    let mut wave_len_ttl0: Option<usize> = None;
     if slow {
         // ---- slow shard: client 0 occupies the shard of key 0 with a busy-loop script; the others
         // queue non-idempotent commands on key 0 behind it (and some elsewhere)
@@ -1120,14 +1354,44 @@ fn do_case(seed: u64, i: u64, cfg: &Cfg, rt: &tokio::runtime::Runtime, rt1: &tok
         }
     } else {
         let per_client = (14 / nclients).clamp(1, 4);
-        if race { wave = true; }
+        if race || ttl { wave = true; }
         let wave_len: Vec<usize> = (0..rounds).map(|_| rng.gen_range(1..=per_client)).collect();
         scripts = (0..nclients).map(|c| {
             (0..rounds).map(|r| {
                 let n = if wave { wave_len[r] } else { rng.gen_range(1..=per_client) };
-                (0..n).map(|_| gen_step(&mut rng, mode, &kinds, c, &mut serial, cfg.eval)).collect()
+                (0..n).map(|_| if ttl { gen_ttl_step(&mut rng, mode, nkeys) } else { gen_step(&mut rng, mode, &kinds, c, &mut serial, cfg.eval) }).collect()
             }).collect()
         }).collect();
+        if ttl {
+            const DELTAS: [u64; 14] = [1, 49, 50, 51, 99, 100, 101, 149, 150, 151, 500, 999, 1000, 2000];
+            let mut delta = |rng: &mut Rng| if rng.gen_bool(0.4) { 0 } else { DELTAS[rng.gen_range(0..DELTAS.len())] };
+            let mut plan = TtlPlan { before_wave: Vec::new(), before_reads: Vec::new() };
+            if rng.gen_bool(0.4) {
+                // directed "refresh" round: SET v PX 150 | plain SET of the SAME value through
+                // every write path | clock +200 | reads through every read path
+                let v = TTL_VALUES[rng.gen_range(0..TTL_VALUES.len())].to_vec();
+                for c in 0..nclients {
+                    let k = c % nkeys;
+                    let w = match (c / nkeys) % 4 { 0 => Via::Fast, 1 => Via::Pooled, 2 => Via::Batch, _ => Via::Generic };
+                    let r = match c % 4 { 0 => Via::Generic, 1 => Via::Fast, 2 => Via::Pooled, _ => Via::Batch };
+                    let fastok = mode == Mode::Mixed;
+                    scripts[c][0] = vec![
+                        step(Via::Generic, vec![(k, Prim::SetPx(v.clone(), 150))]),
+                        step(if fastok { w } else { Via::Generic }, vec![(k, Prim::Set(v.clone()))]),
+                        step(if fastok { r } else { Via::Generic }, vec![(k, Prim::Get)]),
+                    ];
+                }
+                wave_len_ttl0 = Some(3);
+            }
+            for r in 0..rounds {
+                let n = if r == 0 { wave_len_ttl0.unwrap_or(wave_len[r]) } else { wave_len[r] };
+                let mut v: Vec<u64> = (0..n).map(|_| delta(&mut rng)).collect();
+                if r == 0 && wave_len_ttl0.is_some() { v = vec![delta(&mut rng), 0, 200]; }
+                plan.before_wave.push(v);
+                plan.before_reads.push(delta(&mut rng));
+            }
+            ttl_plan = Some(plan);
+        }
         if race {
             // ---- first-writer races on key 0: in a race wave every client issues the same
             // conditional write (own value) at the same instant; in between, one client deletes
@@ -1148,7 +1412,7 @@ fn do_case(seed: u64, i: u64, cfg: &Cfg, rt: &tokio::runtime::Runtime, rt1: &tok
     }
 
     // ---- cancellation: saboteur scripts (seed-determined like the client scripts)
-    let sabotage = !slow && (nshards == 1 || cfg.mixed_multishard) && mode != Mode::FastOnly && rng.gen_range(0..100) < cfg.sab_pct;
+    let sabotage = !slow && !ttl && (nshards == 1 || cfg.mixed_multishard) && mode != Mode::FastOnly && rng.gen_range(0..100) < cfg.sab_pct;
     let mut sabs: Vec<Vec<Vec<SabStep>>> = Vec::new();
     let mut padding = 0usize;
     if sabotage {
@@ -1186,7 +1450,7 @@ fn do_case(seed: u64, i: u64, cfg: &Cfg, rt: &tokio::runtime::Runtime, rt1: &tok
     }
 
     let the_rt = if single_worker { rt1 } else { rt };
-    let run = match std::panic::catch_unwind(std::panic::AssertUnwindSafe(|| run_case(the_rt, nshards, &keys, &kinds, mode, &scripts, rounds, wave, &sabs, padding))) {
+    let run = match std::panic::catch_unwind(std::panic::AssertUnwindSafe(|| run_case(the_rt, nshards, &keys, &kinds, mode, &scripts, rounds, wave, &sabs, padding, ttl_plan.as_ref()))) {
         Ok(r) => r,
         Err(_) => CaseRun { windows: vec![], panicked: Some("panic while driving the case".into()), abandoned: 0, abandoned_pooled: 0, completed_before_abandon: 0, padding_ops: 0, longest_ms: 0 },
     };
@@ -1194,7 +1458,7 @@ fn do_case(seed: u64, i: u64, cfg: &Cfg, rt: &tokio::runtime::Runtime, rt1: &tok
     count(format!("shards:{}", nshards));
     count(format!("clients:{}", nclients));
     count(format!("mode:{:?}", mode));
-    count(format!("class:{}", if slow { "slow-shard" } else if race { "first-writer-race" } else { "mix" }));
+    count(format!("class:{}", if slow { "slow-shard" } else if race { "first-writer-race" } else if ttl { "ttl" } else { "mix" }));
     count((if wave { "release:wave" } else { "release:free" }).into());
     count((if single_worker { "runtime:1-worker" } else { "runtime:multi-worker" }).into());
     count((if sabotage { "sabotage:yes" } else { "sabotage:no" }).into());
@@ -1251,7 +1515,7 @@ fn do_case(seed: u64, i: u64, cfg: &Cfg, rt: &tokio::runtime::Runtime, rt1: &tok
         };
         co.violations.push((what.into(), json!({
             "shards": nshards, "clients": nclients, "mode": format!("{:?}", mode), "keys": keys,
-            "class": if slow { "slow-shard" } else if race { "first-writer-race" } else { "mix" },
+            "class": if slow { "slow-shard" } else if race { "first-writer-race" } else if ttl { "ttl" } else { "mix" },
             "slow_target_seconds": slow_secs, "longest_command_ms": run.longest_ms,
             "sabotage": sabotage, "abandoned_requests": run.abandoned, "abandoned_pooled_requests": run.abandoned_pooled,
             "single_worker_runtime": single_worker,
@@ -1277,7 +1541,7 @@ fn do_case(seed: u64, i: u64, cfg: &Cfg, rt: &tokio::runtime::Runtime, rt1: &tok
 /// Lua busy-loop speed (iterations per second) measured through the real node.
 fn calibrate(rt: &tokio::runtime::Runtime) -> f64 {
     rt.block_on(async {
-        let state = ShardedActorState::with_shards(1);
+        let state = node(1, &Clock::new());
         let n = 30_000_000u64;
         let cmd = Command::Eval { script: format!("{}return x", BUSY), keys: vec!["cal".into()], args: vec![SDS::new(n.to_string().into_bytes())] };
         let _ = state.execute(&cmd).await; // warm up
@@ -1309,6 +1573,7 @@ fn main() {
         wide: args.get("wide", 0) == 1,
         sab_pct: args.get("sabotage", 30),
         race_pct: args.get("race", 30),
+        ttl_pct: args.get("ttl", 15),
         slow_every: args.get("slow-every", 0),
         slow_long: args.get("slow-long", 0) == 1,
         iters_per_sec: 0.0,
